@@ -101,6 +101,16 @@ namespace
                 }
                 case 7: view.graph_value()->schedule_node(i, dt(us(now) + op.a)); break;
                 case 8: throw std::runtime_error("hgv boom");
+                case 9:
+                case 10:
+                {
+                    if (op.a < 0 || (std::size_t)op.a >= n.ins.size()) { break; }
+                    auto root   = view.input(now);
+                    auto bundle = root.as_bundle();
+                    auto in     = bundle[(std::size_t)op.a];
+                    if (op.code == 9) { in.make_passive(); } else { in.make_active(); }
+                    break;
+                }
                 default: break;
             }
             if (sched && op.code >= 1 && op.code <= 5) { snapshot(*ctx.out, 13, i, now, opi, *sched, extra); }
